@@ -56,7 +56,44 @@ class _Res:
 
 
 def model_and_replay(name, outlines, oracles, crash_sets=((),), invariants=(), medium='pickle', procs=None, timeout=3000,
-                     chunk=120, lag=0, loaders='default'):
+                     chunk=120, lag=0, loaders='default', max_behaviours=150000):
+    """model_and_replay_slice over slices of the family small enough for the expected values of one slice (one record per
+    behaviour, shared with 16 forked workers) to stay in memory; the result keeps the expected values of the mismatches and of a
+    few samples only."""
+    per = max(1, len(oracles) * len(crash_sets))
+    size = max(chunk, (max_behaviours // per) // chunk * chunk)
+    tot = None
+    for off in range(0, max(1, len(outlines)), size):
+        part = model_and_replay_slice('%s_s%d' % (name, off // size) if len(outlines) > size else name, outlines[off:off + size], oracles,
+                                      crash_sets, invariants, medium, procs, timeout, chunk, lag, loaders)
+        keep = {k for k, _, _ in part['mismatches']}
+        withcrash = [k for k in sorted(part['expected']) if crash_sets[k[2] - 1]]
+        keep |= set(withcrash[len(withcrash) // 2:len(withcrash) // 2 + 3]) | set(sorted(part['expected'])[:2])
+        shift = lambda k: (k[0] + off, k[1], k[2])       # noqa
+        part['expected'] = {shift(k): v for k, v in part['expected'].items() if k in keep}
+        part['mismatches'] = [(shift(k), why, got) for k, why, got in part['mismatches']]
+        if tot is None:
+            tot = part
+        else:
+            t, r = tot['tlc'], part['tlc']
+            t.ok = t.ok and r.ok
+            if t.violated is None and r.violated:
+                t.violated, t._trace = r.violated, r._trace
+            t.distinct += r.distinct
+            t.generated += r.generated
+            t.out += r.out
+            tot['tlc_s'] += part['tlc_s']
+            tot['behaviours'] += part['behaviours']
+            tot['mismatches'].extend(part['mismatches'])
+            tot['expected'].update(part['expected'])
+            tot['replay_s'] = tot.get('replay_s', 0) + part.get('replay_s', 0)
+        if tot['tlc'].violated or not tot['tlc'].ok:
+            break
+    return tot
+
+
+def model_and_replay_slice(name, outlines, oracles, crash_sets=((),), invariants=(), medium='pickle', procs=None, timeout=3000,
+                           chunk=120, lag=0, loaders='default'):
     """TLC on the family (invariants + one Report line per finished behaviour), then every behaviour on the real code.
     The family is checked in chunks (TLC's initial-state generation is quadratic in the size of the constant)."""
     from concurrent.futures import ThreadPoolExecutor
